@@ -216,7 +216,21 @@ macro_rules! op_mul {
         let f: $t = gen($r);
         let s = scalar($r);
         $m.case(hash_bits(141, f.nums().iter().map(|e| e.to_bits()).chain([s.to_bits(), <$t as Nums>::LEN as u64])));
-        let got = guard(|| f * s);
+        // call styles a caller may write: operator, method on the value, method through a reference (resolved by
+        // auto-deref on the pinned tree)
+        let style = $r.below(3);
+        let got = guard(|| {
+            use std::ops::Mul;
+            match style {
+                0 => f * s,
+                1 => f.mul(s),
+                _ => {
+                    let p = &f;
+                    p.mul(s)
+                }
+            }
+        });
+        $m.count(["call_style:operator", "call_style:method", "call_style:method_through_reference"][style as usize]);
         check($m, "Mul<f64>", &[&f], s, got, |_i, c| c[0] * s, |v| s * v[0], s.abs(), 0.0, $r);
     }};
 }
@@ -237,7 +251,19 @@ macro_rules! op_neg {
     ($m:expr, $r:expr, $t:ty) => {{
         let f: $t = gen($r);
         $m.case(hash_bits(143, f.nums().iter().map(|e| e.to_bits()).chain([<$t as Nums>::LEN as u64])));
-        let got = guard(|| -f);
+        let style = $r.below(3);
+        let got = guard(|| {
+            use std::ops::Neg;
+            match style {
+                0 => -f,
+                1 => f.neg(),
+                _ => {
+                    let p = &f;
+                    p.neg()
+                }
+            }
+        });
+        $m.count(["call_style:operator", "call_style:method", "call_style:method_through_reference"][style as usize]);
         check($m, "Neg", &[&f], -1.0, got, |_i, c| -c[0], |v| -v[0], 1.0, 0.0, $r);
     }};
 }
@@ -353,6 +379,7 @@ pub fn canaries(m: &mut Mon, r: &mut Rng) {
 
 pub const FLOORS: &[&str] = &[
     "value_level_checks",
+    "call_style:method_through_reference",
     "polyn_empty_translate",
     "polyn_constant_value_checked",
     "quartic_pair_equal_coeffs_different_u",
